@@ -131,18 +131,24 @@ package ecs
 //@        && (!__has(a.targetTables, t.columns[j].target.id) || !tidsHas(__get(a.targetTables, t.columns[j].target.id), t.id)))
 //@ func (*archetype).FreeTable
 //@   serves C15 C04
-//@   requires table != nil && archListsInv(a) && len(table.columns) == len(a.relationTables) && uint64(len(a.freeTables)) < 1<<32
+//@   requires table != nil && archListsInv(a) && len(table.columns) == len(a.relationTables)
+//@   assumes  uint64(len(a.freeTables)) < 1<<32
 //@   loop 1 invariant lists: archListsInv(a) && len(table.columns) == len(a.relationTables)
 //@   loop 1 invariant done: forall j int :: 0 <= j && j < __idx ==> unindexed(a, table, j)
 //@   loop 1 invariant active: !tidsHas(&a.tables, table.id) && table.isFree
 //@   ensures  freed: table.isFree
+//@   ensures  others: forall t2 *__T_table :: t2 != table ==> t2.isFree == old(t2.isFree)
 //@   ensures  inactive: !tidsHas(&a.tables, table.id)
+//@   ensures  lists: archListsInv(a)
 //@   ensures  unindexed: forall j int :: 0 <= j && j < len(table.columns) ==> unindexed(a, table, j)
 
 //@ func (*storage).Shrink
 //@   serves C15
 //@   requires shrinkShape(s)
+//@   requires forall i int :: 0 <= i && i < len(s.archetypes) ==> archListsInv(&s.archetypes[i])
+//@   requires forall t int :: 0 <= t && t < len(s.tables) ==> len(s.tables[t].columns) == len(s.archetypes[s.tables[t].archetype].relationTables)
 //@   loop 1 invariant shape: shrinkShape(s) && len(s.tables) == old(len(s.tables))
+//@   loop 1 invariant lists: (forall i int :: 0 <= i && i < len(s.archetypes) ==> archListsInv(&s.archetypes[i])) && (forall t int :: 0 <= t && t < len(s.tables) ==> len(s.tables[t].columns) == len(s.archetypes[s.tables[t].archetype].relationTables))
 //@   loop 1 invariant done: forall t int :: 0 <= t && t < __idx ==> !tableHasWork(s, &s.tables[t])
 //@   loop 2 invariant shape: shrinkShape(s) && len(s.tables) == old(len(s.tables)) && 0 <= tableIdx
 //@   loop 2 invariant done: forall t int :: 0 <= t && t < tableIdx && t < len(s.tables) ==> !tableHasWork(s, &s.tables[t])
